@@ -345,7 +345,7 @@ def c14(c):
             # whatever the variable went through in between
             "CDC", "CPC", "CMC", "CNC", "CSC", "CTC", "DC", "PC", "VDC", "CDV", "CDQC", "CPDC"]
     open(qplan, "w").write("\n".join(seqs) + "\n")
-    c.trace("ark", "lazy", 0, qplan, kinds=["lazy_new", "lazy_op", "lazy_end"], **RT)
+    c.trace("ark", "lazy", 0, qplan, kinds=["lazy_new", "lazy_op", "lazy_end", "lazy_orig"], **RT)
     c.exhaustive_parts.append("variables allocated from valid / identity / invalid / random encodings driven through %d accessor and "
                               "equality-enforcing call sequences: satisfied iff the encoding is valid or was never used as an element" % len(seqs))
     return c.finish(rule="distinct (gadget, input class, substituted hint) combinations; toy part: every input x every "
